@@ -335,6 +335,7 @@ type vVarJob struct {
 	Sets     [][]int `json:"sets"`    // the sets of the message
 	Inserts  [][]int `json:"inserts"` // undecodable sets to insert
 	Truncate bool    `json:"truncate"`
+	TruncIns []int   `json:"trunc_inserts"` // indices of inserts whose variants are also cut at every octet
 }
 
 type vObs struct {
@@ -349,6 +350,8 @@ type vVarRes struct {
 	Full  vObs     `json:"full"`
 	Ins   [][]vObs `json:"ins"`   // [position][insert]
 	Trunc []vObs   `json:"trunc"` // [offset 0..len]
+	// [position][k-th entry of trunc_inserts][offset 0..len]: cuts of the message WITH the inserted set
+	InsTrunc [][][]vObs `json:"ins_trunc"`
 }
 
 func vDigest(rec []vField) string {
@@ -422,7 +425,7 @@ func TestVerifNF9Variants(t *testing.T) {
 		}
 		w.Flush()
 		atomic.StoreInt64(&vBusy, int64(job.ID))
-		res := vVarRes{ID: job.ID, Ins: [][]vObs{}, Trunc: []vObs{}}
+		res := vVarRes{ID: job.ID, Ins: [][]vObs{}, Trunc: []vObs{}, InsTrunc: [][][]vObs{}}
 		full := vAssemble(job.Hdr, job.Sets)
 		res.Full = vObserve(job.Exp, job.Hist, full)
 		for pos := 0; pos <= len(job.Sets); pos++ {
@@ -432,6 +435,17 @@ func TestVerifNF9Variants(t *testing.T) {
 				row = append(row, vObserve(job.Exp, job.Hist, vAssemble(job.Hdr, sets)))
 			}
 			res.Ins = append(res.Ins, row)
+			trow := [][]vObs{}
+			for _, ui := range job.TruncIns {
+				sets := append(append(append([][]int{}, job.Sets[:pos]...), job.Inserts[ui]), job.Sets[pos:]...)
+				whole := vAssemble(job.Hdr, sets)
+				cuts := []vObs{}
+				for k := 0; k <= len(whole); k++ {
+					cuts = append(cuts, vObserve(job.Exp, job.Hist, whole[:k]))
+				}
+				trow = append(trow, cuts)
+			}
+			res.InsTrunc = append(res.InsTrunc, trow)
 		}
 		if job.Truncate {
 			for k := 0; k <= len(full); k++ {
